@@ -7,7 +7,8 @@ use serde_json::{json, Value};
 
 pub const SYMS: [u8; 9] = [b'\n', b'\r', b' ', b'a', b':', b'#', b'1', b'-', b'>'];
 
-pub const TOKENS: [&[u8]; 17] = [
+pub const TOKENS: [&[u8]; 18] = [
+    b"\\",
     b" ",
     b"    ",
     b" -> ",
@@ -189,7 +190,9 @@ fn check_splits(s: &[u8], joined: &mut Vec<u8>, acc: &mut Acc) {
 
 /// "cut family": every well-formed line cut at every byte position, the cut replaced by a line break, with
 /// and without delimiter-rich lines around it (a truncated line may only turn itself into an error)
-pub const CUT_LINES: [&str; 12] = [
+pub const CUT_LINES: [&str; 14] = [
+    "# {\"id\":\"sourceFile\",\"fileName\":\"C:\\src\\app\\Main.kt\"}",
+    "    1:2:void a\\b(c\\d):3:4 -> e\\f",
     "com.example.Foo -> a.b:",
     "    int count -> c",
     "    java.util.List items -> d",
@@ -203,6 +206,32 @@ pub const CUT_LINES: [&str; 12] = [
     "\u{e9}.\u{dc} -> \u{fc}:",
     "    8:9:void \u{e9}(\u{dc}) -> \u{fc}",
 ];
+
+/// long-line family: a malformed / well-formed line of L bytes (around 1 KiB, 64 KiB and 1 MiB) between ordinary
+/// lines must still only affect itself
+fn long_line_family(joined: &mut Vec<u8>, acc: &mut Acc) {
+    let tail: Vec<u8> = CUT_LINES.iter().flat_map(|l| l.bytes().chain(std::iter::once(b'\n'))).collect();
+    for l in [1023usize, 1024, 1025, 4096, 65535, 65536, 65537, 1 << 20, (1 << 20) + 16] {
+        let bad: Vec<u8> = std::iter::repeat(b'x').take(l).collect(); // no arrow: a malformed class line
+        let mut good: Vec<u8> = std::iter::repeat(b'k').take(l).collect();
+        good.extend_from_slice(b" -> g:");
+        let mut digits: Vec<u8> = b"    ".to_vec();
+        digits.extend(std::iter::repeat(b'7').take(l));
+        digits.extend_from_slice(b":1:void a() -> b");
+        for line in [&bad, &good, &digits] {
+            for j in JOINERS {
+                let mut a = b"p.Q -> q:\n".to_vec();
+                a.extend_from_slice(line);
+                acc.states += 1;
+                acc.transitions += 1;
+                acc.count("long-line family pairs", 1);
+                if check_single(&a, acc) {
+                    check_pair(&a, &tail, j, joined, acc);
+                }
+            }
+        }
+    }
+}
 
 fn cut_family(joined: &mut Vec<u8>, acc: &mut Acc) {
     let all: Vec<u8> = CUT_LINES.iter().flat_map(|l| l.bytes().chain(std::iter::once(b'\n'))).collect();
@@ -394,6 +423,7 @@ pub fn run(tier: Tier) -> i32 {
                     }
                 }
                 cut_family(&mut joined, acc);
+                long_line_family(&mut joined, acc);
             }
             Work::Corpus(i, shard, n, stride) => {
                 let (name, bytes) = &corpus[*i];
@@ -439,7 +469,7 @@ pub fn run(tier: Tier) -> i32 {
         prop: "C06",
         tier,
         level: "model_checking",
-        rule: format!("inputs enumerated exhaustively: all byte strings of length <= {} over the 9 symbols LF CR SP a : # 1 - >; all strings of <= {} tokens over the 17-token alphabet (single space, delimiters, sourceFile prefix, '\"}}', invalid UTF-8, Latin-1 'numeric' byte, 30-digit run); every split of each of them at LF / lone CR / CRLF; all pairs (A, B) with A <= {} tokens, B <= 2 tokens joined by LF (and by CR and CRLF with A one token shorter in the quick tier); the cut family (12 well-formed lines cut at every byte, x 3 contexts before x 2 after x 3 line breaks); line-boundary splits of the corpus files. Oracle: iteration ends within len+1 items without panic, no yielded string contains CR/LF, records(A+linebreak+B) = records(A)++records(B) (Ok records exactly, Err items by offending line modulo terminator, zero-length error items ignored). states = strings / pairs / splits; distinct = distinct item streams", sym_depth, tok_depth, amax),
+        rule: format!("inputs enumerated exhaustively: all byte strings of length <= {} over the 9 symbols LF CR SP a : # 1 - >; all strings of <= {} tokens over the 18-token alphabet (backslash, single space, delimiters, sourceFile prefix, '\"}}', invalid UTF-8, Latin-1 'numeric' byte, 30-digit run); every split of each of them at LF / lone CR / CRLF; all pairs (A, B) with A <= {} tokens, B <= 2 tokens joined by LF (and by CR and CRLF with A one token shorter in the quick tier); the cut family (14 well-formed lines cut at every byte, x 3 contexts before x 2 after x 3 line breaks); the long-line family (malformed, well-formed and digit-run lines of 1023..2^20+16 bytes followed by ordinary lines); line-boundary splits of the corpus files. Oracle: iteration ends within len+1 items without panic, no yielded string contains CR/LF, records(A+linebreak+B) = records(A)++records(B) (Ok records exactly, Err items by offending line modulo terminator, zero-length error items ignored). states = strings / pairs / splits; distinct = distinct item streams", sym_depth, tok_depth, amax),
         bounds: json!({"byte_string_length": sym_depth, "token_string_depth": tok_depth, "pairs": {"A_tokens": amax, "B_tokens": 2}, "tokens": TOKENS.iter().map(|t| esc(t)).collect::<Vec<_>>(), "corpus": "small files: every line boundary; the two files > 100 kB: every 1024th (quick) / 32nd (thorough) line boundary - that part is a stride, not exhaustive"}),
         assumptions: vec!["reading I3: a zero-length error item (blank tail after an error line) is not a malformed line".into()],
         trusted_base: vec!["rustc/std".into(), "Debug formatting of ProguardRecord for exact comparison of Ok records".into()],
